@@ -378,6 +378,53 @@ func pairOracles(x *Ctx, reqs []*breq) {
 			}
 		}
 	}
+	// A newcomer is a member from the moment its join is announced: a relay that
+	// some member-throughout received AFTER the newcomer's join broadcast was
+	// fanned out when the newcomer was already in the session (Broadcast holds the
+	// participants read lock for the whole fan-out, AddParticipant needs the write
+	// lock), so the newcomer is owed it too - whatever state snapshot it was handed.
+	for _, jq := range reqs {
+		if jq.Kind != "join" || !accepted[jq] {
+			continue
+		}
+		dpid := x.J[jq.Who].ParticipantID
+		for _, q := range reqs {
+			if q == jq || q.relayType == 0 || q.Who == jq.Who || !accepted[q] {
+				continue
+			}
+			switch q.Kind {
+			case "cadd", "cupd", "cdel", "customto", "join":
+				continue // subscription-based or explicitly addressed
+			}
+			owed := ""
+			for _, n := range []string{"a", "b", "c"} {
+				if n == q.Who || left[n] {
+					continue
+				}
+				announced := false
+				for _, r := range x.C[n].All() {
+					if m, ok := r.Msg.(*hagallpb.ParticipantJoinBroadcast); ok && m.ParticipantId == dpid {
+						announced = true
+					}
+					if announced && r.Type == q.relayType && s1.Canon(r).Origin == q.ts {
+						owed = n
+					}
+				}
+			}
+			if owed == "" {
+				continue
+			}
+			cnt := 0
+			for _, r := range x.C[jq.Who].All() {
+				if r.Type == q.relayType && s1.Canon(r).Origin == q.ts {
+					cnt++
+				}
+			}
+			if cnt == 0 {
+				x.fail("relay", q.Kind+":not-relayed-to-announced-newcomer", "%s received %s's join broadcast and then %s's %s: the relay was fanned out with %s in the session, yet %s never received it", owed, jq.Who, q.Who, q.Kind, jq.Who, jq.Who)
+			}
+		}
+	}
 	// C12 under concurrency: of two adds of the same (type, entity) at most one succeeds
 	var adds []*breq
 	for _, q := range reqs {
